@@ -285,3 +285,8 @@ func TestScalarText(t *testing.T) { pbt.Run(t, Text) }
 var Sweep = pbt.Register(reqcheck.SweepProp("TestCapacitySweep"))
 
 func TestCapacitySweep(t *testing.T) { pbt.Run(t, Sweep) }
+
+// t2j into caller buffers of every capacity: same text, no panic.
+var T2JSweep = pbt.Register(t2jcheck.SweepProp("TestT2JCapacitySweep"))
+
+func TestT2JCapacitySweep(t *testing.T) { pbt.Run(t, T2JSweep) }
